@@ -1,6 +1,7 @@
 package main
 
 import (
+	"os"
 	"fmt"
 	"go/constant"
 	"go/token"
@@ -897,7 +898,7 @@ func (p *posProver) positive(v ssa.Value, at *ssa.BasicBlock, d int) bool {
 				}
 				for _, s := range storesToField(fn, f) {
 					stores++
-					if !p.positive(s.Val, s.Block(), d+1) && !p.clampedAfterStore(s, f, d) {
+					if !p.positive(s.Val, s.Block(), d+1) && !p.clampedAfterStore(s, f, d) && !p.positiveOnPathsTo(s.Val, s, d) {
 						return p.fail("field %s is stored at %s", f.Name(), p.a.pos(s.Pos()))
 					}
 				}
@@ -951,6 +952,42 @@ func (p *posProver) positive(v ssa.Value, at *ssa.BasicBlock, d int) bool {
 		return true
 	}
 	return p.fail("%T %s", v, v.String())
+}
+
+// positiveOnPathsTo: v is a variable that holds a placeholder on the paths that refuse (`return 0, err`, folded into
+// the caller as `d, err = 0, …`) and the checked value otherwise: on every feasible path from the function's entry
+// to the use, the value the variable holds there is positive where it was assigned.
+func (p *posProver) positiveOnPathsTo(v ssa.Value, use ssa.Instruction, d int) bool {
+	phi, ok := v.(*ssa.Phi)
+	if !ok || d > 8 {
+		return false
+	}
+	from := map[ssa.Value][]*ssa.BasicBlock{}
+	for _, l := range phiLeafEdges(phi) {
+		from[l.v] = append(from[l.v], l.from)
+	}
+	okAll, hits := true, 0
+	save := p.why
+	over := explorePaths(use.Parent(), use, func(ssa.Value) Tri { return U }, func(ssa.Instruction) bool { return false }, func(resolve func(ssa.Value) ssa.Value) {
+		hits++
+		r := resolve(phi)
+		bs, known := from[r]
+		if !known {
+			okAll = false
+			return
+		}
+		for _, b := range bs {
+			if !p.positive(r, b, d+1) {
+				okAll = false
+			}
+		}
+	})
+	if os.Getenv("VERIF_DEBUG") == "pos" { fmt.Println("POSPATH", use.Parent(), over, okAll, hits) }
+	if over || !okAll || hits == 0 {
+		return false
+	}
+	p.why = save
+	return true
 }
 
 // clampedAfterStore: `x.f = v; if x.f < C { x.f = C }` with C > 0 — the store is followed, in its own
